@@ -122,6 +122,19 @@ CLAIMED["C14"] = {
                           "parity(data) XOR free variable so CRCs collapse in the GF(2) normal form",
 }
 
+CLAIMED["C12"] = {
+    "text": "bounded symbolic checking on one fully symbolic 112-bit frame: infer() (mrar both) never raises, returns "
+            "EMPTY exactly for an all-zero payload, the Table register for DF17 type codes, and for DF20/21 exactly the "
+            "sorted comma-join of the labels whose predicate summary holds; each isXX refuses every payload that breaks "
+            "one of its Doc 9871 status / reserved-bit / BDS-id rules and accepts every in-envelope payload "
+            "(BDS 1,0 1,7 2,0 3,0 4,0 4,5 5,0 6,0); is50or60 returns None exactly when not both apply and otherwise one "
+            "of the three labels. PARTIAL: which interpretation is numerically nearest, BDS 6,0 completeness under the "
+            "DF20 Mach/IAS cross-check and BDS 4,4 completeness are outside.",
+    "design_ref": "DESIGN.md section 5 C12", "note": NOTE,
+    "technique": T_SYMX + "; nested function summaries (each predicate explored once into a formula), aero / numpy "
+                          "numerics as uninterpreted functions",
+}
+
 NOT_APPLICABLE = {
     "C20": "transcendental float numerics (numpy **, exp, sqrt, arccos on doubles): no SMT theory reaches the stated "
            "quantities; z3 nlsat answers unknown on the tas<->cas inverse identity; see DESIGN.md section 5 C20",
